@@ -67,7 +67,7 @@ func c15(tier string) []*explore.Scenario {
 	out = append(out, c15ProxyAttach(), c15StreamThreeThreads(), c15LateReplyVsNewCalls(2))
 	for _, sc := range out {
 		sc.Race = true
-		if sc.Bound > 1 && tier != "thorough" && !containsStr(sc.Name, "late-replies-vs-new-calls") { // (that one is small: 2 deviations in the quick tier too)
+		if sc.Bound > 1 && tier != "thorough" && !containsStr(sc.Name, "late-replies-vs-new-calls") && !containsStr(sc.Name, "header-race/concurrent-se") { // (that one is small: 2 deviations in the quick tier too)
 			sc.Bound = 1
 		}
 	}
